@@ -22,10 +22,10 @@ runs = [
     lambda: engine("once3", {"AckLate": False}, "Deadlock reached"),                       # F1
     lambda: engine("cap2", {"CapChan": 1}, "Deadlock reached"),                            # F2
     lambda: engine("watch2", {"StrictStart": True}, "Invariant NoStepViolation is violated"),  # F10 (open)
-    lambda: engine("watch2", {"RecordBefore": False, "GuardNoInput": True}, "Invariant UpToDate is violated"),   # F3 seen from the engine
-    lambda: other("Incremental.tla", "inc", {"Paths": "{p1, p2}", "NT": 1, "MaxM": 1, "MaxC": 1, "MaxOps": 2, "MaxInv": 2, "RecordBefore": False, "GuardNoInput": True},
+    lambda: engine("watch2", {"RecordBefore": False, "GuardNoInput": True, "Foreigns": True}, "Invariant UpToDate is violated"),   # F3 seen from the engine
+    lambda: other("Incremental.tla", "inc", {"Paths": "{p1, p2}", "NT": 1, "MaxM": 1, "MaxC": 1, "MaxOps": 2, "MaxInv": 2, "RecordBefore": False, "GuardNoInput": True, "Foreigns": True},
                   ["SkipMeansUpToDate"], [], "Invariant SkipMeansUpToDate is violated"),   # F3
-    lambda: other("Incremental.tla", "inc_f11", {"Paths": "{p1, p2}", "NT": 1, "MaxM": 1, "MaxC": 1, "MaxOps": 2, "MaxInv": 2, "RecordBefore": True, "GuardNoInput": False},
+    lambda: other("Incremental.tla", "inc_f11", {"Paths": "{p1, p2}", "NT": 1, "MaxM": 1, "MaxC": 1, "MaxOps": 2, "MaxInv": 2, "RecordBefore": True, "GuardNoInput": False, "Foreigns": True},
                   [], ["NoInputNeverSkipped"], "Action property NoInputNeverSkipped is violated"),   # F11
     lambda: other("Loader.tla", "loader", {"UniqueNames": False, "Dirs": '{"d0", "d1", "d2"}'}, ["VerdictRight"], [], "Invariant VerdictRight is violated"),  # F7
 ]
